@@ -116,9 +116,15 @@ UnRoot(m) == Ok(UnRootSet(m))
 
 \* result of removing tip t: a set (choice of the new pseudo-root when the root loses a child),
 \* or {} when the code returns an error
+\* case 1 of removeTip: a node that is not the root and has lost its only child disappears too, and so on upwards
+\* (a chain of single-child nodes above the removed tip)
+RECURSIVE Climb(_, _)
+Climb(m, p) == IF p # m.root /\ KidsM(m, p) = {} THEN Climb(Drop(m, {p}), m.par[p]) ELSE <<m, p>>
+
 RemoveTipM(m, t) ==
-  LET p  == m.par[t]
-      m1 == Drop(m, {t})
+  LET cl == Climb(Drop(m, {t}), m.par[t])
+      m1 == cl[1]
+      p  == cl[2]
       ks == KidsM(m1, p)
   IN  IF p = m.root
       THEN IF Cardinality(ks) = 1
